@@ -94,3 +94,179 @@ let line (t : string list) : string =
       (fun (fi', n) -> w := { !w with FileM.w_fi = fi' }; "ok " ^ string_of_n n)
   | ["state"] -> "ok | " ^ state_s ()
   | _ -> "bad"
+
+(* ------------------------------------------------------------------------------------------------------------------
+   mode "c02v": the image-level machine of Model/VolFile.v (vol_step: FileM over the byte-level FAT store that IS the
+   FAT slice of the device image, data written through into the cluster areas) next to the real library.
+   Two images are kept: [mim] = the model's image, advanced by the extracted [VolFile.vol_step] only;
+   [dim] = the device, advanced by the library's own device writes (write log of the executor) only.
+
+   "vimg <fill> <off> <hex> <off> <hex> ..."  both images := the device dump (executor `pages`) taken after format and
+        before mount; geometry = Abs.parse_geom; FS-info latch = what Bpb.mount (model of FileSystem::new) reads; one new
+        empty file  -> "ok <bits> <cluster size> <clusters> <vgeom_okb 0|1> <free|-> <next|-> <base> <mirrors>"
+   "vstep <op ...> | <off>:<hex> ..."   op = write <hex> | read <n> | seek start|end|cur <off> | truncate; after '|' the
+        device writes the library performed during the call
+        -> "<result> | <offset> <size|-> <first|-> <current|-> | same <bytes compared>"   or   "... | DIFF <what>"
+        compared after the call, device image vs model image: every byte range the library wrote inside the FAT region or
+        inside a cluster of the file's old or new chain (a device write into any other data cluster is a DIFF); the table
+        entries (every copy) of every cluster of the old and new chain; the whole cluster the model wrote data into.
+   "vend"  -> "ok <hex of Abs-decoded content of the file on the DEVICE image|-> | <model extents off:size ...|-> | same <n>|DIFF .."
+        decode_file (Spec/Abs.v chain walk + chain bytes) with the handle's first cluster and size, on the DEVICE image;
+        compares the complete FAT region (all copies) and every cluster of the chain of the two images.
+   "vranges <off>:<size> ..." -> "ok <hex|->"   the bytes of the DEVICE image at the given ranges (VolFile.read_ranges) *)
+let vg : Abs.geom ref = ref (Abs.parse_geom (Image.img_empty N0))
+let mim = ref (Image.img_empty N0)
+let dim = ref (Image.img_empty N0)
+let vfi : Table.fsinfo ref = ref { Table.fi_free = None; Table.fi_next = None; Table.fi_dirty = false }
+let vh = ref (fresh_handle ())
+
+let nadd = BinNat.N.add
+let nmul = BinNat.N.mul
+
+let vstate_s () : string =
+  Printf.sprintf "%s %s %s %s" (string_of_n !vh.FileM.h_off) (opt_s (FileM.h_size !vh)) (opt_s !vh.FileM.h_first)
+    (opt_s !vh.FileM.h_cur)
+
+let chain_of (im : Image.image) (h : FileM.fhandle) : int list =
+  match h.FileM.h_first with
+  | None -> []
+  | Some f ->
+    (match Abs.chain_from !vg im f (Abs.chain_fuel !vg) with
+     | Some l -> Stdlib.List.map int_of_n l
+     | None -> [int_of_n f])
+
+(* first offset in [off, off+len) where the two images differ *)
+let diff_range (off : int) (len : int) : int option =
+  let rec go i = if i >= len then None
+    else if Image.img_get !mim (n_of_int (off + i)) <> Image.img_get !dim (n_of_int (off + i)) then Some (off + i)
+    else go (i + 1) in
+  go 0
+
+let geom_ints () =
+  let g = !vg in
+  let fat0 = int_of_n (Abs.g_fat_off g N0) in
+  let root = int_of_n (Abs.g_root_off g) in
+  let fatb = int_of_n (Abs.g_fat_bytes g) in
+  let nf = int_of_n g.Abs.g_fats in
+  let data0 = int_of_n (Abs.g_cluster_off g (n_of_int 2)) in
+  let cs = int_of_n (Abs.g_cluster_size g) in
+  let total = int_of_n (Abs.g_clusters g) in
+  (fat0, root, fatb, nf, data0, cs, total)
+
+let entry_span (c : int) : int * int =
+  match VolFile.ft_of !vg with
+  | Fat.Fat12 -> (c + c / 2, 2)
+  | Fat.Fat16 -> (2 * c, 2)
+  | Fat.Fat32 -> (4 * c, 4)
+
+let describe_diff (what : string) (o : int) : string =
+  Printf.sprintf "DIFF %s at %d: model %s device %s" what o (string_of_n (Image.img_get !mim (n_of_int o)))
+    (string_of_n (Image.img_get !dim (n_of_int o)))
+
+let vline (t : string list) : string =
+  match t with
+  | "vimg" :: fill :: rest ->
+    let im0 = ref (Image.img_empty (n_of_string fill)) in
+    let rec go = function
+      | off :: hx :: r -> im0 := Image.img_write !im0 (n_of_string off) (bytes_of_hex hx); go r
+      | _ -> () in
+    go rest;
+    mim := !im0; dim := !im0;
+    vg := Abs.parse_geom !im0;
+    vh := fresh_handle ();
+    let bs = Image.img_read !im0 N0 (nat_of_int 512) in
+    let fsi = Image.img_read !im0 (Bpb.fsinfo_offset bs) (nat_of_int 512) in
+    (match Bpb.mount Bpb.Debug bs fsi false with
+     | Base.Ok m ->
+       vfi := { Table.fi_free = m.Bpb.m_free; Table.fi_next = m.Bpb.m_next; Table.fi_dirty = false };
+       Printf.sprintf "ok %s %s %s %d %s %s %s %d" (string_of_n (Abs.g_bits !vg)) (string_of_n (Abs.g_cluster_size !vg))
+         (string_of_n (Abs.g_clusters !vg)) (if VolFile.vgeom_okb !vg then 1 else 0) (opt_s m.Bpb.m_free) (opt_s m.Bpb.m_next)
+         (string_of_n (VolFile.vol_base !vg)) (int_of_n (BinNat.N.of_nat (VolFile.vol_mirrors !vg)))
+     | _ -> "err mount")
+  | "vstep" :: rest ->
+    let rec split acc = function
+      | "|" :: r -> (Stdlib.List.rev acc, r)
+      | x :: r -> split (x :: acc) r
+      | [] -> (Stdlib.List.rev acc, []) in
+    let (opt, wr) = split [] rest in
+    let op = match opt with
+      | ["write"; hx] -> Some (FileM.FWrite (bytes_of_hex hx))
+      | ["read"; n] -> Some (FileM.FRead (n_of_string n))
+      | ["seek"; "start"; off] -> Some (FileM.FSeek (FileM.FromStart (n_of_string off)))
+      | ["seek"; "end"; off] -> Some (FileM.FSeek (FileM.FromEnd (z_of_string off)))
+      | ["seek"; "cur"; off] -> Some (FileM.FSeek (FileM.FromCurrent (z_of_string off)))
+      | ["truncate"] -> Some FileM.FTruncate
+      | _ -> None in
+    (match op with
+     | None -> "bad"
+     | Some op ->
+       let (fat0, root, fatb, nf, data0, cs, total) = geom_ints () in
+       let old_chain = chain_of !mim !vh in
+       let h0 = !vh in
+       let (((im', fi'), h'), r) = VolFile.vol_step !vg ((!mim, !vfi), !vh) op in
+       mim := im'; vfi := fi'; vh := h';
+       let new_chain = chain_of !mim !vh in
+       let res = match r with
+         | FileM.RBytes bs -> "ok " ^ hex_of_bytes bs
+         | FileM.RCount k -> "ok " ^ string_of_n k
+         | FileM.RPos p -> "ok " ^ string_of_n p
+         | FileM.RDone -> "ok"
+         | FileM.RFail e -> "err " ^ err_name e
+         | FileM.RPanic -> "panic"
+         | FileM.RFuel -> "fuel" in
+       (* the device's own writes *)
+       let writes = Stdlib.List.filter_map (fun s ->
+           match String.index_opt s ':' with
+           | Some i -> Some (int_of_string (String.sub s 0 i), String.sub s (i + 1) (String.length s - i - 1))
+           | None -> None) wr in
+       Stdlib.List.iter (fun (o, hx) -> dim := Image.img_write !dim (n_of_int o) (bytes_of_hex hx)) writes;
+       let chain_all = old_chain @ new_chain in
+       let problem = ref None in
+       let compared = ref 0 in
+       let check what off len =
+         if !problem = None then begin
+           compared := !compared + len;
+           match diff_range off len with Some o -> problem := Some (describe_diff what o) | None -> ()
+         end in
+       Stdlib.List.iter (fun (o, hx) ->
+           let len = String.length hx / 2 in
+           if o >= fat0 && o < root then check "library write in the FAT region" o len
+           else if o >= data0 then begin
+             let c = (o - data0) / cs + 2 in
+             if Stdlib.List.mem c chain_all then check (Printf.sprintf "library write in cluster %d" c) o len
+             else if !problem = None && c < total + 2 then
+               problem := Some (Printf.sprintf "DIFF library wrote %d bytes at %d in cluster %d, outside the file's chains" len o c)
+           end) writes;
+       Stdlib.List.iter (fun c ->
+           let (eo, el) = entry_span c in
+           for k = 0 to nf - 1 do check (Printf.sprintf "table entry %d copy %d" c k) (fat0 + k * fatb + eo) el done) chain_all;
+       (match VolFile.step_write (Abs.g_cluster_size !vg) h0 h' op r with
+        | Some ((cc, _), _) -> check (Printf.sprintf "cluster %s (data write)" (string_of_n cc)) (data0 + (int_of_n cc - 2) * cs) cs
+        | None -> ());
+       Printf.sprintf "%s | %s | %s" res (vstate_s ())
+         (match !problem with Some p -> p | None -> Printf.sprintf "same %d" !compared))
+  | ["vend"] ->
+    let (fat0, root, fatb, nf, data0, cs, total) = geom_ints () in
+    let content = VolFile.decode_file !vg !dim (VolFile.first_field !vh)
+        (match FileM.h_size !vh with Some s -> s | None -> N0) in
+    let ext = match VolFile.vol_extents !vg ((!mim, !vfi), !vh) with
+      | Base.Ok l -> if l = [] then "-" else String.concat " " (Stdlib.List.map (fun (o, s) -> string_of_n o ^ ":" ^ string_of_n s) l)
+      | _ -> "?" in
+    let problem = ref None in
+    let compared = ref 0 in
+    let check what off len =
+      if !problem = None then begin
+        compared := !compared + len;
+        match diff_range off len with Some o -> problem := Some (describe_diff what o) | None -> ()
+      end in
+    check "FAT region" fat0 (root - fat0);
+    Stdlib.List.iter (fun c -> check (Printf.sprintf "cluster %d" c) (data0 + (c - 2) * cs) cs) (chain_of !mim !vh);
+    Printf.sprintf "ok %s | %s | %s" (hex_of_bytes content) ext
+      (match !problem with Some p -> p | None -> Printf.sprintf "same %d" !compared)
+  | "vranges" :: rest ->
+    let rs = Stdlib.List.filter_map (fun s ->
+        match String.index_opt s ':' with
+        | Some i -> Some (n_of_string (String.sub s 0 i), n_of_string (String.sub s (i + 1) (String.length s - i - 1)))
+        | None -> None) rest in
+    "ok " ^ hex_of_bytes (VolFile.read_ranges !dim rs)
+  | _ -> "bad"
